@@ -1,6 +1,7 @@
 (* C34 — editor-support positions identify references and objects exactly. *)
 From Coq Require Import Sorting.Sorted Sorting.Permutation.
-From TxV Require Import Core.Base Model.EdPosDefs Gen.SrcEdPos Model.EdPos Proofs.EdPosProofs.
+From TxV Require Import Model.PegSyntax Model.Peg Model.Build.
+From TxV Require Import Core.Base Model.EdPosDefs Gen.SrcEdPos Model.EdPos Proofs.EdPosProofs Model.EdPosBuild Proofs.EdPosBuildProofs.
 
 (* The facts tools/translate/edpos_tr.py reads off the current textx/model.py (Gen/SrcEdPos.v):
    RefRulePosition takes the span of the reference node and the span of the resolved object,
@@ -185,6 +186,39 @@ Theorem C34_dict_order : forall t,
   StronglySorted (fun x y => ~ contains (fst x) (fst y)) (rule_dict t).
 Proof. exact dict_order. Qed.
 Print Assumptions C34_dict_order.
+
+(* ---- on the parse trees of the builder model (Model/Build.v, C01/C06) ----
+   [abs g mm t] is the object/token tree process_node sees in the Peg parse tree t (it follows
+   pnode's choice of children); its object nodes are the common-rule nodes with (tpos, tend). *)
+
+(* "key = span of the object's node in the parse tree": every key of the position map is
+   (tpos, tend) of a common-rule node t' of the parse tree, the value is that node's rule. *)
+Theorem C34_dict_key_is_node_span : forall g mm t nd s e i,
+  In nd (abs g mm t) -> In (s, e, i) (rule_dict nd) ->
+  exists t', In t' (subtrees t) /\ is_common mm t' /\
+             i = tree_nid t' /\ s = N.of_nat (Build.tpos t') /\ e = N.of_nat (Build.tend t').
+Proof. exact dict_key_is_node_span. Qed.
+Print Assumptions C34_dict_key_is_node_span.
+
+(* Every object the builder creates (every VObj inside the value pnode returns, at any depth,
+   for every grammar/metamodel table, input and option setting of Build.v's fragment) carries
+   the span of a common-rule node of the parse tree, and that span is a key of the position map. *)
+Theorem C34_built_objects_are_keys : forall g mm input grp auto use_grp t v top',
+  pnode g mm input grp auto use_grp t None = BOk (v, top') ->
+  forall p e, In (p, e) (vspans v) ->
+  (exists t', In t' (subtrees t) /\ is_common mm t' /\ p = Build.tpos t' /\ e = Build.tend t') /\
+  exists nd i, In nd (abs g mm t) /\ In (N.of_nat p, N.of_nat e, i) (rule_dict nd).
+Proof. exact built_objects_spans_and_keys. Qed.
+Print Assumptions C34_built_objects_are_keys.
+
+Example C34_build_nonvacuous :
+  let g := mkGrammar [] 0 None in
+  let mm := [IRule RCommon [65]%N [mkAttr [98]%N M1 true false [66]%N false]; IAsgn [98]%N OpPlain; IRule RCommon [66]%N []; IOther] in
+  let t := NT 0 [NT 1 [NT 2 [T 3 2 3 false; T 3 7 1 false]]] in
+  pnode g mm [] (fun _ _ => None) false false t None = BOk (VObj [65]%N 2 8 [([98]%N, VObj [66]%N 2 8 [])], None) /\
+  map rule_dict (abs g mm t) = [[(2%N, 8%N, 2)]].
+Proof. vm_compute. split; reflexivity. Qed.
+Print Assumptions C34_build_nonvacuous.
 
 (* non-vacuity for the position map: Wrap(1) = Mid(2) = Core(3) share a span, a second Wrap(4)
    shares only the start with its Mid(5); 6 is the model *)
